@@ -84,7 +84,10 @@ class ToolCase:
         os.makedirs(os.path.join(root, "data"), exist_ok=True)
         os.makedirs(os.path.join(root, "work"), exist_ok=True)
         os.makedirs(os.path.join(root, "out"), exist_ok=True)
-        return self.materialise(root)
+        ins = self.materialise(root)
+        if core.CUR is not None:
+            core.age_tree(core.CUR, os.path.join(root, "data"))    # a later generation is a newer one
+        return ins
 
     def describe(self):
         return {"tool": self.name, **{k: (v if isinstance(v, (int, float, str, bool, list, type(None))) else str(v))
